@@ -185,7 +185,7 @@ class StructCore(object):
                     data.append(getattr(self._v, f.name))
                 elif hasattr(f,'subnames'):
                     D = {}
-                    for x in self.subnames:
+                    for x in f.subnames:
                         D[x] = getattr(self._v,x)
                     data.append(D)
         parts = []
@@ -195,6 +195,8 @@ class StructCore(object):
             if not self.packed:
                 pad = f.align(offset,psize) - offset
                 p = b"\0" * pad + p
+            if self.union is False:
+                offset += len(p)
             parts.append(p)
         if self.union is False:
             res = b"".join(parts)
